@@ -283,10 +283,13 @@ class HeterogeneousLinearModel(darsia.Model):
                 interpolation=cv2.INTER_NEAREST,
             )
 
-        # Initialize result
-        result = np.zeros_like(img, dtype=img.dtype)
+        # Initialize result - with the type of the converted signal (as for LinearModel),
+        # not the type of the signal (integer signals would be truncated)
+        result = None
         for l_counter, label in enumerate(self.unique_labels):
-            tmp = self._scaling[l_counter] * img + self._offset[l_counter]
+            tmp = float(self._scaling[l_counter]) * img + float(self._offset[l_counter])
+            if result is None:
+                result = np.zeros_like(tmp)
             mask = self.cached_labels == label
             result[mask] = tmp[mask]
 
